@@ -273,12 +273,12 @@ def monRPoolBuys : RPool → List (Int × Int) → Bool
     monRPoolBuys { pl with rx := pl.rx - quoteCeil price amt, ry := pl.ry + amt } rest
 
 /-- tick-loop sell orders: every order's amount is covered by the REAL base reserve, and the price received is not below
-`X / (Y − amt)` -/
+`X / (Y − amt)` (up to `price·10⁻³⁶`, what the two roundings of `QuoRoundUp` may lose) -/
 def monRPoolSells : RPool → List (Int × Int) → Bool
   | _, [] => true
   | pl, (price, amt) :: rest =>
     decide (0 < amt) && decide (amt ≤ pl.ry) &&
-    decide (pl.xComp * Dec.P ≤ price * (pl.yComp - amt * Dec.P)) &&
+    decide (pl.xComp * Dec.PP ≤ price * (pl.yComp - amt * Dec.P) * Dec.P + price) &&
     monRPoolSells { pl with rx := pl.rx + quoteFloor price amt, ry := pl.ry - amt } rest
 
 /-- a whole `PoolBuyOrders` list of a ranged pool, REAL orders: the first order may be the one `BuyAmountTo` contributes at the
